@@ -65,6 +65,17 @@ _Bool g_pd_idx_zero_at_exit;
 #define VERIF_EXIT_polyseed_phrase_decode do { _Bool z_ = 1; \
     for (int i_ = 0; i_ < POLYSEED_NUM_WORDS; ++i_) if (idx[i_] != 0) z_ = 0; \
     g_pd_idx_zero_at_exit = z_; g_pd_exits++; } while (0)
+/* exit recording for the API functions with secret-bearing locals (C16): address and size of each
+   local that must have been wiped, and its byte at the arbitrary index g_k / whether it is all zero */
+struct verif_exit_rec { const void* addr; size_t size; _Bool zero; };
+struct verif_exit_rec g_x_str, g_x_words, g_x_poly, g_x_mask, g_x_pass;
+unsigned g_x_exits;
+#define X_REC(rec, obj) do { (rec).addr = &(obj); (rec).size = sizeof(obj); _Bool z_ = 1; \
+    for (size_t i_ = 0; i_ < sizeof(obj); ++i_) if (((const unsigned char*)&(obj))[i_] != 0) z_ = 0; (rec).zero = z_; } while (0)
+#define VERIF_EXIT_polyseed_decode do { X_REC(g_x_str, str_tmp); X_REC(g_x_words, words); X_REC(g_x_poly, poly); g_x_exits++; } while (0)
+#define VERIF_EXIT_polyseed_decode_explicit VERIF_EXIT_polyseed_decode
+#define VERIF_EXIT_polyseed_crypt do { X_REC(g_x_pass, pass_norm); X_REC(g_x_mask, mask); X_REC(g_x_poly, poly); g_x_exits++; } while (0)
+#define VERIF_EXIT_polyseed_encode do { X_REC(g_x_str, str_tmp); X_REC(g_x_poly, poly); g_x_exits++; } while (0)
 /* utf8_nfkd_lazy exit recording */
 size_t g_lazy_size;
 unsigned g_lazy_exits;
